@@ -8,7 +8,7 @@ from ..transfer_lab import Scenario, UploadFaults, closure_of, dest_objects, fai
 RULE = (
     "scenario = 1-4 generated trees sharing files (and repeating a file under several paths) in a local cache, destination "
     "remote-like (base HashFileDB over a non-local filesystem) or local, closed request (dirs listed with their files) or "
-    "expanded (shallow=False), with/without an ObjectDBIndex, jobs 1/4; round = one subset of objects whose upload fails "
+    "expanded (shallow=False), with/without an ObjectDBIndex, jobs 1/4, verify on/off; round = one subset of objects whose upload fails "
     "(every subset when <= 6 objects, sampled otherwise), followed by a fault-free retry; additionally: one directory of 257-700 distinct files per shard (failures at the low/middle/high end of the oid order), a round in which the first 1-3 reads of the directory objects' listings fail while a listed file fails to upload; the closure monitor runs at every "
     "observable destination state (after every upload / before every fs mutation) and at the end; crash rounds kill a child "
     "process at enumerated mutating events.  non-trivial = at least one upload failed and at least one succeeded; "
@@ -21,7 +21,7 @@ ASSUMPTIONS = [
 ]
 MONITORS = "closure(dest) evaluated at every intermediate destination state via FaultyFS.after_put / audit hook, plus end-state and retry checks"
 REQUIRED_COUNTERS = [
-    "wide_directory_scenarios", "dir_read_fault_rounds", "dir_listing_reads_failed", "source_index_rounds", "index_history_rounds", "source_vanish_rounds", "rounds", "states_observed", "rounds_with_failures", "shared_file_failure_rounds", "retries", "rounds_with_index",
+    "scenarios_with_verify", "missing_on_both_sides_rounds", "wide_directory_scenarios", "dir_read_fault_rounds", "dir_listing_reads_failed", "source_index_rounds", "index_history_rounds", "source_vanish_rounds", "rounds", "states_observed", "rounds_with_failures", "shared_file_failure_rounds", "retries", "rounds_with_index",
     "dirs_withheld", "exhaustive_scenarios", "crash_children",
 ]
 EXHAUSTIVE = {"quick": False, "thorough": False}
@@ -52,6 +52,9 @@ def run_shard(ctx):
             expanded = rng.random() < 0.4
             use_index = rng.random() < 0.5
             jobs = rng.choice([1, 4])
+            verify_opt = {"verify": True} if rng.random() < 0.3 else {}
+            if verify_opt:
+                res.count("scenarios_with_verify")
             ids, shallow, denoted = sc.closed_request(expanded)
             dirs = {t["oid"]: t for t in sc.trees}
             file_oids = sorted(sc.file_oids())
@@ -104,7 +107,7 @@ def run_shard(ctx):
                         viol.append((kind, doid, missing))
 
                 with UploadFaults(sc, S, on_state) as uf:
-                    r = _transfer(sc, ids, shallow, jobs, index)
+                    r = _transfer(sc, ids, shallow, jobs, index, **verify_opt)
                 res.count("states_observed", uf.states if not wide else uf.states // 16 + 1)
                 if wide:
                     nstate[0] = 15
@@ -125,7 +128,7 @@ def run_shard(ctx):
                         f"dir-present-without-its-files/{kind}-failed",
                         f"directory object {doid} in destination while listed file(s) {missing[:2]} absent",
                         case=case,
-                        detail={"failing": sorted(S), "dest": sc.dest_kind, "expanded": expanded, "index": use_index, "jobs": jobs,
+                        detail={"failing": sorted(S), "dest": sc.dest_kind, "expanded": expanded, "index": use_index, "jobs": jobs, "verify": bool(verify_opt),
                                 "trees": [{"oid": t["oid"], "listing": t["listing"]} for t in sc.trees]},
                     )
                 failed_vals = {h.value for h in r.failed}
@@ -219,6 +222,48 @@ def run_shard(ctx):
                         if any(v not in after5 for v in t["listing"].values()) and doid not in f5:
                             res.violation("dir-with-undelivered-file-not-reported-failed/dir-listing-unreadable",
                                           f"{doid} incomplete but not in result.failed", case=case, detail={"failing": sorted(S5)})
+
+            # ---- a file object missing on both sides while everything else its directories list is already delivered: nothing is left to
+            # upload for those directories, and still they must be withheld
+            if not ctx.out_of_time() and not wide and file_oids:
+                import shutil as _sh
+
+                wipe(sc.dest_root)
+                sc.dest = sc._mk_dest()
+                gone_f = rng.choice(file_oids)
+                holders = [t for t in sc.trees if gone_f in t["listing"].values()]
+                if holders:
+                    res.evaluated()
+                    res.count("missing_on_both_sides_rounds")
+                    keepf = sc.src_path(gone_f) + ".verif-kept"
+                    os.replace(sc.src_path(gone_f), keepf)
+                    pre_deliver = rng.random() < 0.7
+                    if pre_deliver:
+                        for t in holders:
+                            for o in set(t["listing"].values()) - {gone_f}:
+                                dp = sc.dest_path(o)
+                                os.makedirs(os.path.dirname(dp), exist_ok=True)
+                                _sh.copyfile(sc.src_path(o), dp)
+                                if sc.dest_kind == "local":
+                                    os.chmod(dp, 0o444)
+                    viol6 = []
+
+                    def on_state6():
+                        probs, _n = closure_of(sc)
+                        viol6.extend(probs)
+
+                    with UploadFaults(sc, frozenset(), on_state6) as uf6:
+                        r6 = _transfer(sc, ids, shallow, jobs, None, **verify_opt)
+                    res.count("states_observed", uf6.states)
+                    endp6, _n = closure_of(sc)
+                    res.nontrivial(scen_sig, "missing-both", gone_f, pre_deliver)
+                    if viol6 or endp6:
+                        bad = (viol6 or endp6)[0]
+                        res.violation("dir-present-without-its-files/file-missing-on-both-sides",
+                                      f"{bad[0]} uploaded although {bad[1][:2]} exists neither in the source nor in the destination"
+                                      + (" (all its other files had been delivered before)" if pre_deliver else ""), case=case,
+                                      detail={"missing": gone_f, "dest": sc.dest_kind, "expanded": expanded, "pre_delivered": pre_deliver})
+                    os.replace(keepf, sc.src_path(gone_f))
 
             # ---- a history sharing one destination index: push A, the remote loses A (and A's files), push B which shares a file with A
             pairs = [(a, b) for a in sc.trees for b in sc.trees if a is not b and set(a["listing"].values()) & set(b["listing"].values())]
